@@ -59,7 +59,7 @@ def formula_check(res, model: Model, qual: str, ref_src: str, what: str, opaque:
     return ok
 
 
-def _norm_effect(e, ignore_kinds, ignore_calls):
+def _norm_effect(e, ignore_kinds, ignore_calls, ordered=False):
     if e[0] == "store":
         _, tgt, how, val = e
         if "store" in ignore_kinds:
@@ -69,27 +69,33 @@ def _norm_effect(e, ignore_kinds, ignore_calls):
     if e[0] == "call":
         if e[1] in ignore_calls:
             return None
+        if isinstance(e[2], tuple) and e[2] and e[2][0] == "ctx":
+            return None  # calls on a context-manager object (progress bar) are not market/strategy effects
         return e
     if e[0] == "expr":
         return None if "expr" in ignore_kinds else e
     if e[0] == "foreach":
         inner = []
         for conds, fx, r in e[2]:
-            effs = [x for x in (_norm_effect(y, ignore_kinds, ignore_calls) for y in fx) if x is not None]
-            inner.append((tuple(sorted(map(repr, conds))), tuple(sorted(repr(x) for x in effs)), r))
+            effs = [x for x in (_norm_effect(y, ignore_kinds, ignore_calls, ordered) for y in fx) if x is not None]
+            es = tuple(repr(x) for x in effs)
+            inner.append((tuple(sorted(map(repr, conds))), es if ordered else tuple(sorted(es)), r))
         return ("foreach", e[1], tuple(sorted(inner, key=repr)))
     return e
 
 
-def _sig(paths, ignore_kinds, ignore_calls, keep_raise_effects):
+def _sig(paths, ignore_kinds, ignore_calls, keep_raise_effects, ordered=False):
     from collections import Counter
     out = []
     for conds, env, ret in paths:
         fx = env.get("$fx", ())
         if isinstance(ret, Raise) and not keep_raise_effects:
             fx = ()
-        effs = [x for x in (_norm_effect(e, ignore_kinds, ignore_calls) for e in fx) if x is not None]
-        out.append((frozenset(conds), frozenset(Counter(repr(x) for x in effs).items()), ret))
+        effs = [x for x in (_norm_effect(e, ignore_kinds, ignore_calls, ordered) for e in fx) if x is not None]
+        if ordered:
+            out.append((frozenset(conds), frozenset((f"{i:03d} " + repr(x), 1) for i, x in enumerate(effs)), ret))
+        else:
+            out.append((frozenset(conds), frozenset(Counter(repr(x) for x in effs).items()), ret))
     return out
 
 
@@ -112,8 +118,8 @@ def effects_check(res, model: Model, qual: str, ref_src: str, what: str, effect_
     except Unreadable as e:
         raise AnalysisError(f"{res.prop}: {qual} is outside the evaluator's language ({e}); ledger clause '{what}' "
                             f"cannot be decided")
-    s1 = _sig(p1, ignore_kinds, ignore_calls, keep_raise_effects)
-    s2 = _sig(p2, ignore_kinds, ignore_calls, keep_raise_effects)
+    s1 = _sig(p1, ignore_kinds, ignore_calls, keep_raise_effects, ordered)
+    s2 = _sig(p2, ignore_kinds, ignore_calls, keep_raise_effects, ordered)
     rest = list(s2)
     un = []
     from ..vn import _val_eq
